@@ -11,8 +11,10 @@ CONSTANTS
   WholeOnly = FALSE
   Sizes = {1, 2}
   FixCommonSnapshot = TRUE
+  Dev_StalePathReuse = FALSE
   GenDepth = 9
   GenHistory = FALSE
   GenReject = FALSE
+  GenOnlyAfterReject = FALSE
 INVARIANT EmitLoad
 CHECK_DEADLOCK FALSE
